@@ -80,6 +80,9 @@ def extract(tree):
     c["protoMul"] = csrc.cint(m.group(1))
     b = csrc.func_body(struct, "janet_struct_begin")
     _need(re.search(r"int32_t\s+capacity\s*=\s*janet_tablen\s*\(\s*2\s*\*\s*count\s*\)\s*;", b), "janet_struct_begin capacity")
+    # ---- janet_struct_put_ext / janet_table_put: the early-return guards in front of the probe (which puts are ignored),
+    #      and what the duplicate-key branch (`status == 0`) writes
+    c["_guards"] = put_guards(struct, csrc.strip_comments(csrc.read(tree, "src/core/table.c")))
     # ---- type order
     ty = csrc.enum_values(hdr, "JANET_NUMBER")
     want = ["JANET_NUMBER", "JANET_NIL", "JANET_BOOLEAN", "JANET_FIBER", "JANET_STRING", "JANET_SYMBOL", "JANET_KEYWORD", "JANET_ARRAY", "JANET_TUPLE",
@@ -116,6 +119,68 @@ def extract(tree):
     sc["symCacheInitCap"] = int(m.group(1))
     c["_sym"] = sc
     return c, {k: ty[k] for k in want}
+
+
+GUARD_TAGS = [
+    ("nilKeyOrValue", r"janet_checktype\(key,JANET_NIL\)\|\|janet_checktype\(value,JANET_NIL\)"),
+    ("nilKey", r"janet_checktype\(key,JANET_NIL\)"),
+    ("nanKey", r"janet_checktype\(key,JANET_NUMBER\)&&isnan\(janet_unwrap_number\(key\)\)"),
+    ("full", r"janet_struct_hash\(st\)==janet_struct_length\(st\)"),
+]
+
+
+def _guard_list(prefix, fname):
+    """the `if (<cond>) return;` statements of `prefix` (the part of a function body in front of its main work), in order,
+    each classified; an unknown condition, or any other statement than declarations, is a shape change"""
+    out = []
+    rest = prefix
+    for m in re.finditer(r"if\s*\((.*?)\)\s*return\s*;", prefix, re.S):
+        cond = re.sub(r"\s+", "", m.group(1))
+        tag = next((t for t, rx in GUARD_TAGS if re.fullmatch(rx, cond)), None)
+        if tag is None:
+            raise ExtractError("%s: early-return guard `%s` not recognised" % (fname, m.group(1).strip()))
+        out.append(tag)
+        rest = rest.replace(m.group(0), "", 1)
+    # what is left must be declarations / initialisations only
+    for stmt in [x.strip().lstrip("{").strip() for x in rest.split(";") if x.strip().lstrip("{").strip()]:
+        if not re.match(r"(int32_t|int|JanetKV\s*\*|uint32_t)\s", stmt):
+            raise ExtractError("%s: statement `%s` in front of the probe not recognised" % (fname, stmt[:80]))
+    return out
+
+
+def put_guards(struct_src, table_src):
+    g = {}
+    b = csrc.func_body(struct_src, "janet_struct_put_ext")
+    i = b.find("for (dist = 0")
+    if i < 0:
+        raise ExtractError("janet_struct_put_ext: probe loop `for (dist = 0, …` not found")
+    g["structPutGuards"] = _guard_list(b[:i], "janet_struct_put_ext")
+    # the loop: empty slot -> store + count++ ; status 1 -> swap and carry on with dist/hash of the evicted pair ; status 0 -> replace value only
+    loop = b[i:]
+    _need(re.search(r"if\s*\(\s*janet_checktype\s*\(\s*kv->key\s*,\s*JANET_NIL\s*\)\s*\)\s*\{\s*kv->key\s*=\s*key\s*;\s*kv->value\s*=\s*value\s*;\s*"
+                    r"janet_struct_hash\s*\(st\)\+\+\s*;\s*return\s*;\s*\}", loop), "janet_struct_put_ext empty-slot branch")
+    _need(re.search(r"if\s*\(\s*dist\s*<\s*otherdist\s*\)\s*status\s*=\s*-1\s*;\s*else\s+if\s*\(\s*otherdist\s*<\s*dist\s*\)\s*status\s*=\s*1\s*;\s*"
+                    r"else\s+if\s*\(\s*hash\s*<\s*otherhash\s*\)\s*status\s*=\s*-1\s*;\s*else\s+if\s*\(\s*otherhash\s*<\s*hash\s*\)\s*status\s*=\s*1\s*;\s*"
+                    r"else\s+status\s*=\s*janet_compare\s*\(\s*key\s*,\s*kv->key\s*\)\s*;", loop), "janet_struct_put_ext priority (dist, hash, janet_compare)")
+    _need(re.search(r"if\s*\(\s*status\s*==\s*1\s*\)\s*\{\s*JanetKV\s+temp\s*=\s*\*kv\s*;\s*kv->key\s*=\s*key\s*;\s*kv->value\s*=\s*value\s*;\s*key\s*=\s*temp\.key\s*;\s*"
+                    r"value\s*=\s*temp\.value\s*;\s*dist\s*=\s*otherdist\s*;\s*hash\s*=\s*otherhash\s*;\s*\}", loop), "janet_struct_put_ext swap branch (carries dist and hash of the evicted pair)")
+    m = _need(re.search(r"else\s+if\s*\(\s*status\s*==\s*0\s*\)\s*\{\s*if\s*\(\s*replace\s*\)\s*\{(.*?)\}\s*return\s*;\s*\}", loop, re.S), "janet_struct_put_ext duplicate-key branch")
+    writes = [re.sub(r"\s+", "", x) for x in m.group(1).split(";") if x.strip()]
+    fields = []
+    for w in writes:
+        mm = re.fullmatch(r"kv->(key|value)=(key|value)", w)
+        if not mm or mm.group(1) != mm.group(2):
+            raise ExtractError("janet_struct_put_ext duplicate-key branch: statement `%s` not recognised" % w)
+        fields.append(mm.group(1))
+    g["structDupWrites"] = fields
+    _need(re.search(r"void\s+janet_struct_put\s*\(\s*JanetKV\s*\*st\s*,\s*Janet\s+key\s*,\s*Janet\s+value\s*\)\s*\{\s*janet_struct_put_ext\s*\(\s*st\s*,\s*key\s*,\s*value\s*,\s*1\s*\)\s*;", struct_src),
+          "janet_struct_put = janet_struct_put_ext(…, 1)")
+    b = csrc.func_body(table_src, "janet_table_put")
+    i = b.find("if (janet_checktype(value, JANET_NIL)) {")
+    if i < 0:
+        raise ExtractError("janet_table_put: nil-value (remove) branch not found")
+    g["tablePutGuards"] = _guard_list(b[:i], "janet_table_put")
+    return g
 
 
 def abstract_hooks(tree):
@@ -163,6 +228,7 @@ def render(tree):
     out.append("/-- constants read off janet_hash_mix, janet_string_calchash, janet_array_calchash, janet_kv_calchash (util.c),")
     out.append("    janet_hash, murmur64 (value.c), janet_struct_end (struct.c) -/")
     sc = c.pop("_sym")
+    guards = c.pop("_guards")
     for k, v in c.items():
         if k == "tablenShifts":
             out.append("abbrev tablenShifts : List Nat := [%s]" % ", ".join(str(x) for x in v))
@@ -176,5 +242,10 @@ def render(tree):
     out.append("abbrev symMoveVacatedDeleted : Bool := %s" % ("true" if sc["symMoveVacatedDeleted"] else "false"))
     out.append("abbrev symDeinitWritesDeleted : Bool := %s" % ("true" if sc["symDeinitWritesDeleted"] else "false"))
     out.append("abbrev symCacheInitCap : Nat := %d" % sc["symCacheInitCap"])
+    out.append("\n/-- struct.c janet_struct_put_ext / table.c janet_table_put: the early-return guards in front of the probe, in source order")
+    out.append("    (which puts are ignored: nil key or value, NaN key, struct already full), and the fields the duplicate-key branch")
+    out.append("    (`status == 0`, under `replace`) writes -/")
+    for k in ("structPutGuards", "structDupWrites", "tablePutGuards"):
+        out.append("abbrev %s : List String := [%s]" % (k, ", ".join('"%s"' % x for x in guards[k])))
     out.append("\nend JanetModel.Gen.Value\n")
     return "\n".join(out)
